@@ -32,6 +32,9 @@ struct Data {
     u: i64,
     /// bit k set = field k of [x, y, s, b] is absent from this fact
     absent: u8,
+    /// bit k set = field k of [x, y, -, b] is stored as the String that prints like its value ("1", "true"):
+    /// a *type twin* — an update from the plain value to its twin changes the type and nothing a rendering shows
+    twin: u8,
 }
 
 #[derive(Clone, Debug, PartialEq)]
@@ -65,7 +68,7 @@ struct Case {
 }
 
 fn gen_data(s: &mut Src) -> Data {
-    let mut d = Data { x: s.range(0, 2), y: s.range(0, 2), s: s.below(3), b: s.bool(), u: 0, absent: 0 };
+    let mut d = Data { x: s.range(0, 2), y: s.range(0, 2), s: s.below(3), b: s.bool(), u: 0, absent: 0, twin: 0 };
     // now and then a fact lacks a field (an update can therefore also DROP a field)
     if s.chance(1, 4) {
         d.absent = 1 << s.below(4);
@@ -76,16 +79,16 @@ fn gen_data(s: &mut Src) -> Data {
 fn data_to_typed(d: &Data) -> TypedFacts {
     let mut t = TypedFacts::new();
     if d.absent & 1 == 0 {
-        t.set("x", FactValue::Integer(d.x));
+        t.set("x", if d.twin & 1 != 0 { FactValue::String(d.x.to_string()) } else { FactValue::Integer(d.x) });
     }
     if d.absent & 2 == 0 {
-        t.set("y", FactValue::Integer(d.y));
+        t.set("y", if d.twin & 2 != 0 { FactValue::String(d.y.to_string()) } else { FactValue::Integer(d.y) });
     }
     if d.absent & 4 == 0 {
         t.set("s", FactValue::String(STRS[d.s].to_string()));
     }
     if d.absent & 8 == 0 {
-        t.set("b", FactValue::Boolean(d.b));
+        t.set("b", if d.twin & 8 != 0 { FactValue::String(d.b.to_string()) } else { FactValue::Boolean(d.b) });
     }
     t.set("u", FactValue::Integer(d.u));
     t
@@ -147,7 +150,7 @@ fn gen_case(s: &mut Src, exh: u32) -> Case {
         };
         let mut ops = Vec::new();
         for _ in 0..exh {
-            let d = |x: i64| Data { x, y: 0, s: 0, b: false, u: 0, absent: 0 };
+            let d = |x: i64| Data { x, y: 0, s: 0, b: false, u: 0, absent: 0, twin: 0 };
             ops.push(match s.below(8) {
                 0 => Op6::Insert(0, d(0)),
                 1 => Op6::Insert(0, d(1)),
@@ -217,6 +220,49 @@ fn gen_case(s: &mut Src, exh: u32) -> Case {
         ops.push(op);
     }
     ops.push(Op6::FireAll);
+    // type twins, drawn after everything else (byte-encoded cases written before this existed decode as before):
+    // one write gets a field stored as the String that prints like its value; two times in three an update is first
+    // made a copy of the previous write to the same fact, so that ONLY the type of one value changes
+    if s.chance(1, 3) {
+        let upd: Vec<usize> = ops.iter().enumerate().filter(|(_, o)| matches!(o, Op6::Update(..))).map(|(k, _)| k).collect();
+        let ins: Vec<usize> = ops.iter().enumerate().filter(|(_, o)| matches!(o, Op6::Insert(..))).map(|(k, _)| k).collect();
+        let bit = [1u8, 2, 8][s.below(3)];
+        if !upd.is_empty() && s.chance(3, 4) {
+            let k = upd[s.below(upd.len())];
+            let same = s.chance(2, 3);
+            let target = match &ops[k] {
+                Op6::Update(i, _) => *i,
+                _ => 0,
+            };
+            let mut prev: Option<Data> = None;
+            let mut n_ins = 0;
+            for o in &ops[..k] {
+                match o {
+                    Op6::Insert(_, d) => {
+                        if n_ins == target {
+                            prev = Some(d.clone());
+                        }
+                        n_ins += 1;
+                    }
+                    Op6::Update(i, d) if *i == target => prev = Some(d.clone()),
+                    _ => {}
+                }
+            }
+            if let Op6::Update(_, d) = &mut ops[k] {
+                if same {
+                    if let Some(p) = prev {
+                        *d = p;
+                    }
+                }
+                d.twin ^= bit;
+            }
+        } else if !ins.is_empty() {
+            let k = ins[s.below(ins.len())];
+            if let Op6::Insert(_, d) = &mut ops[k] {
+                d.twin ^= bit;
+            }
+        }
+    }
     Case { rules, ops }
 }
 
@@ -248,6 +294,10 @@ fn rule_text(r: &RRule) -> String {
     if r.act == ActKind::RetractMatched {
         let i = t.rfind('}').unwrap();
         t.insert_str(i, &format!("    Retract(\"{}\");\n", TYPES[r.ty]));
+    } else if r.ast.actions.is_empty() {
+        // the GRL grammar has no empty `then`: a rule without effect on working memory is written with a Log action
+        let i = t.rfind('}').unwrap();
+        t.insert_str(i, "    Log(\"fired\");\n");
     }
     t
 }
@@ -259,6 +309,44 @@ fn render(c: &Case) -> String {
     }
     s.push_str(&format!("ops: {:?}", c.ops));
     s
+}
+
+fn v_to_fv(v: &V) -> FactValue {
+    match v {
+        V::Str(s) => FactValue::String(s.clone()),
+        V::Int(i) => FactValue::Integer(*i),
+        V::Float(x) => FactValue::Float(*x),
+        V::Bool(b) => FactValue::Boolean(*b),
+        V::Arr(a) => FactValue::Array(a.iter().map(v_to_fv).collect()),
+        _ => FactValue::Null,
+    }
+}
+
+/// Self-oracle for contents on which REF is undefined (values of an unexpected type): does a FRESH engine that holds
+/// only this rule fire it for a single newly inserted fact with exactly these contents? The stale engine fired the
+/// rule for these contents; if the same code on a clean slate does not, the firing was owed to what the fact held
+/// earlier. None = the fresh engine could not be built.
+fn fresh_engine_fires(c: &Case, rule: usize, contents: &BTreeMap<String, V>) -> Option<bool> {
+    // only the condition matters: no actions, no-loop (a self-triggering action would run to the iteration bound),
+    // built directly (the GRL grammar has no empty `then`)
+    let mut only = c.rules[rule].clone();
+    only.act = ActKind::None;
+    only.ast.actions.clear();
+    only.ast.no_loop = true;
+    let one = Case { rules: vec![only], ops: vec![] };
+    let rec: Arc<Mutex<Vec<Firing>>> = Arc::new(Mutex::new(Vec::new()));
+    let via = VIA_PARSER.with(|v| v.replace(false));
+    let built = build(&one, &rec);
+    VIA_PARSER.with(|v| v.set(via));
+    let mut e = built.ok()?;
+    let mut t = TypedFacts::new();
+    for (k, v) in contents {
+        t.set(k.as_str(), v_to_fv(v));
+    }
+    let h = e.insert(TYPES[c.rules[rule].ty].to_string(), t);
+    let _ = e.fire_all();
+    let fired = rec.lock().unwrap().iter().any(|f| f.handle == Some(h.id()));
+    Some(fired)
 }
 
 fn build(c: &Case, rec: &Arc<Mutex<Vec<Firing>>>) -> Result<IncrementalEngine, &'static str> {
@@ -273,7 +361,7 @@ fn build(c: &Case, rec: &Arc<Mutex<Vec<Firing>>>) -> Result<IncrementalEngine, &
                 return Err("parser-deviation:rule-count");
             }
             let p = p.remove(0);
-            let expect_actions = r.ast.actions.len() + usize::from(r.act == ActKind::RetractMatched);
+            let expect_actions = (r.ast.actions.len() + usize::from(r.act == ActKind::RetractMatched)).max(1);
             if !crate::c01::cond_matches(&r.ast.cond, &p.conditions) || p.actions.len() != expect_actions || p.no_loop != r.ast.no_loop || p.salience != r.ast.salience {
                 return Err("parser-deviation:ast-mismatch");
             }
@@ -382,16 +470,16 @@ fn both_readings(r: &RRule, contents: &BTreeMap<String, V>) -> (bool, bool, bool
 fn data_map(d: &Data) -> BTreeMap<String, V> {
     let mut m = BTreeMap::new();
     if d.absent & 1 == 0 {
-        m.insert("x".into(), V::Int(d.x));
+        m.insert("x".into(), if d.twin & 1 != 0 { V::Str(d.x.to_string()) } else { V::Int(d.x) });
     }
     if d.absent & 2 == 0 {
-        m.insert("y".into(), V::Int(d.y));
+        m.insert("y".into(), if d.twin & 2 != 0 { V::Str(d.y.to_string()) } else { V::Int(d.y) });
     }
     if d.absent & 4 == 0 {
         m.insert("s".into(), V::Str(STRS[d.s].into()));
     }
     if d.absent & 8 == 0 {
-        m.insert("b".into(), V::Bool(d.b));
+        m.insert("b".into(), if d.twin & 8 != 0 { V::Str(d.b.to_string()) } else { V::Bool(d.b) });
     }
     m.insert("u".into(), V::Int(d.u));
     m
@@ -527,7 +615,23 @@ pub fn run(s: &mut Src, ctx: &mut Ctx) -> Verdict {
                                     format!("op {} firing {}: rule {} fired for handle {} whose contents {:?} do not satisfy its condition", oi, k, r.ast.name, hid, contents),
                                 )
                             }
-                            T3::Undef(_) => ctx.label("self-oracle-needed"),
+                            T3::Undef(_) => {
+                                // REF takes no side (a value of an unexpected type, an absent right-hand field, ...):
+                                // ask the same code on a clean slate
+                                match fresh_engine_fires(&c, f.rule, contents) {
+                                    Some(false) => {
+                                        return Verdict::fail(
+                                            "stale-activation-fired:self-oracle",
+                                            format!(
+                                                "op {} firing {}: rule {} fired for handle {} whose contents {:?} do not make a fresh engine fire that rule for a newly inserted fact with the same contents",
+                                                oi, k, r.ast.name, hid, contents
+                                            ),
+                                        )
+                                    }
+                                    Some(true) => ctx.label("self-oracle-agrees"),
+                                    None => ctx.label("self-oracle-unavailable"),
+                                }
+                            }
                         }
                     }
                     if r.act == ActKind::RetractMatched {
